@@ -94,12 +94,38 @@ func (tc *templateChecker) checkTemplate(node ast.Node) {
 		return
 	case *ast.DataRefNode:
 		tc.visitKey(node.Key)
+	case *ast.FunctionNode:
+		switch node.Name {
+		case "index", "isFirst", "isLast":
+			tc.checkLoopFunction(node)
+		}
 	case *ast.HeaderParamNode:
 		panic(fmt.Errorf("unexpected {@param ...} tag found"))
 	}
 	if parent, ok := node.(ast.ParentNode); ok {
 		tc.recurse(parent)
 	}
+}
+
+// checkLoopFunction ensures that index, isFirst and isLast are applied to the
+// variable of an enclosing loop: they read the state of that loop, and there
+// is none for a param or a {let}.
+func (tc *templateChecker) checkLoopFunction(node *ast.FunctionNode) {
+	if len(node.Args) != 1 {
+		return // (the arity is checked when the function is called)
+	}
+	if ref, ok := node.Args[0].(*ast.DataRefNode); ok && len(ref.Access) == 0 {
+		for i := len(tc.vars) - 1; i >= 0; i-- {
+			if tc.vars[i].name == ref.Key {
+				if !tc.vars[i].isLet {
+					return
+				}
+				break
+			}
+		}
+	}
+	panic(fmt.Errorf("%s: the argument of %s() must be the variable of an enclosing loop",
+		node.String(), node.Name))
 }
 
 // checkLet ensures that the let variable has an allowed name.
